@@ -103,6 +103,7 @@ type Exec struct {
 	maxOps     int
 	liveness   bool // deadlock / step overrun is a property violation in this profile
 	recovering bool
+	lastPower  bool // the most recent crash was a power loss
 	aborted    bool // a foreign oracle failed in a way that makes the rest of the run meaningless
 }
 
@@ -259,6 +260,7 @@ func (ex *Exec) faultFor(c seamCall) action {
 	case "err":
 		ex.fired.Add("err_"+f.When+"_"+c.Kind, 1)
 		ex.fired.Add("err", 1)
+		ex.sigParts = append(ex.sigParts, fmt.Sprintf("err:%s:%s:%v:op=%s", c.Kind, f.When, f.Persistent, ex.curOpKind()))
 		ex.faultedLifetime, ex.faultedEver = true, true
 		if c.Kind == "Delete" {
 			ex.deleteFaulted = true
@@ -398,8 +400,25 @@ func (ex *Exec) Run() (v *Violation, harnessErr string) {
 				ex.logf("in flight at crash: %v", *ex.inflight)
 				ex.inflight = nil
 			}
+			ex.lastPower = ci.Power
 			if ci.Power {
+				b := ex.disk.Stats
 				ex.disk.PowerLoss(ex.tape, int64(ex.cfg.Granule))
+				a := ex.disk.Stats
+				pat := "none-dirty"
+				k, l := a.BlocksKept-b.BlocksKept, a.BlocksLost-b.BlocksLost
+				switch {
+				case k > 0 && l > 0:
+					pat = "torn"
+				case k > 0:
+					pat = "all-kept"
+				case l > 0:
+					pat = "all-lost"
+				}
+				if a.DirOpsLost > b.DirOpsLost {
+					pat += "+dirop-lost"
+				}
+				ex.sigParts = append(ex.sigParts, "tear:"+pat)
 			}
 			ex.or.Restart()
 			ex.gen++
@@ -583,7 +602,11 @@ func (ex *Exec) mainTask(g *Gen) {
 	ex.w = w
 	ex.openWindow(nil)
 	if ex.recovering || ex.gen == 0 {
-		ex.afterOpen(true)
+		// Only after a power loss is what recovery read also what is durable:
+		// after a process crash (or a clean reopen) the OS cache may still hold
+		// un-fsynced bytes of an unacknowledged batch, which recovery may
+		// legitimately accept and a later power loss may legitimately take away.
+		ex.afterOpen(ex.gen == 0 || ex.lastPower)
 	}
 	ex.recovering = false
 	for ex.pc < len(ex.plan.Ops) && !ex.stop() {
@@ -628,9 +651,13 @@ func (ex *Exec) afterOpen(durable bool) {
 		ex.probes.Add("recoveries", 1)
 		ex.classifyRecovery()
 	}
+	nDisk := len(ex.or.Disk)
 	ex.observeAndCheck("after-open", durable, true)
 	if ex.stop() {
 		return
+	}
+	if ex.recovering {
+		ex.sigParts = append(ex.sigParts, fmt.Sprintf("rec:%s:cands=%d", ex.stateClass(), nDisk))
 	}
 	ex.sim.Quiesce("quiesce-after-open")
 	ex.quiescentOracles("after-open")
@@ -1284,7 +1311,7 @@ func (ex *Exec) doReopen(op OpSpec) {
 	ex.or.Restart()
 	ex.probes.Add("clean_reopens", 1)
 	ex.reopens++
-	ex.afterOpen(true)
+	ex.afterOpen(false)
 }
 
 func (ex *Exec) closeAndCheck() {
@@ -1555,7 +1582,11 @@ func (ex *Exec) finishStats() {
 	}
 	ex.stats.StateSigs = ex.stateSigs2()
 	sort.Strings(ex.sigParts)
-	ex.stats.CaseSig = strings.Join(ex.caseSeq, ",") + "|" + strings.Join(ex.sigParts, ";")
+	if len(ex.sigParts) > 0 {
+		ex.stats.CaseSig = strings.Join(ex.sigParts, ";")
+	} else {
+		ex.stats.CaseSig = strings.Join(ex.caseSeq, ",")
+	}
 	switch {
 	case len(ex.sigParts) > 0:
 		ex.stats.Nontrivial = true
